@@ -369,6 +369,7 @@ def _shard(ctx, shard, nshards):
 
 
 def run(ctx):
+    native.setup()       # translate + compile once, before the shard processes fork
     n = ctx.scale(8, 16)
     ctx.shards(_shard, n, n)
     return RULE, 'exploration', [
